@@ -5,9 +5,9 @@ from appsession import *  # noqa
 from c06 import ref_crop
 
 ID = "C07"
-PROOF_MODULES = ["VncProofs.C06"]
+PROOF_MODULES = ["VncProofs.C06", "VncProofs.C07Sys"]
 THEOREMS = ["Vnc.C07_complete_iff", "Vnc.C07_identical", "Vnc.C07_histogram_length", "Vnc.C07_box", "Vnc.C07_one_request_per_commit", "Vnc.C07_never_early",
-            "Vnc.C06_commit_ends_update", "Vnc.C06_commit_without_waiter"]
+            "Vnc.C06_commit_ends_update", "Vnc.C06_commit_without_waiter", "Vnc.sys_update_app", "Vnc.feed_updates_split", "Vnc.C07_sys_polls", "Vnc.C07_sys_completes"]
 TRUSTED = [
     "Lean 4.33 kernel; standard axioms only",
     "Twisted's Deferred as in C06; Pillow: Image.open / histogram / crop (crop pads with black outside the image) are modelled as exact pixel functions",
